@@ -80,6 +80,11 @@ def gen_plan(seed, tier):
     plan['maxiter'] = rng.choice([None, None, 5, 30, 100]); plan['maxfun'] = rng.choice([None, None, 20, 200])
     plan['via'] = rng.choice(['class', 'wrapper'])
     if kind == 'nm': plan['adaptive'] = rng.random() < 0.3
+    if kind == 'nm' and plan['via'] == 'class' and sub_rng(seed, 'plan.c08.companion').random() < 0.2:
+        # a second Nelder-Mead solver (another objective, another start) is given the SAME CandidateRelativeTolerance object and the two
+        # are stepped in turn: each of them still is the reference iteration of its own problem
+        rc = sub_rng(seed, 'plan.c08.companion.cfg')
+        plan['companion'] = {'cost': gen.gen_cost(rc, dim, ['quad', 'rosen', 'abs', 'quad']), 'x0': gen.gen_x0(rc, dim)}
     if kind == 'nm' and plan['via'] == 'class' and plan['maxfun'] is None and rng.random() < 0.3:
         # the run is logged to a file (LoggingMonitor as step monitor) and the file fails once or twice (EIO / ENOSPC on a write);
         # the caller handles the error and steps on.  The objective never fails: the iteration is still the reference's, a failed
@@ -330,6 +335,32 @@ def run_nm(plan, run, violate, stats):
     s.SetEvaluationLimits(plan['maxiter'], plan['maxfun'])
     s.SetTermination(CRT(plan['xtol'], plan['ftol']))
     kw = {'adaptive': True} if plan.get('adaptive') else {}
+    comp = None
+    if plan.get('companion'):
+        cspec = plan['companion']['cost']; cx0 = list(plan['companion']['x0'])
+        ccalls = [0]
+        def cf(x):
+            ccalls[0] += 1
+            return eval_model(cspec, tuple(float(v) for v in x))
+        cX0 = numpy.array(cx0, dtype=float); csim0 = numpy.zeros((dim + 1, dim)); csim0[0] = cX0
+        for k_ in range(dim):
+            y = cX0.copy()
+            y[k_] = (1 + 0.05) * y[k_] if y[k_] != 0 else (0.05 ** 2) * 0.1
+            csim0[k_ + 1] = y
+        with numpy.errstate(all='ignore'):
+            cref = so.minimize(cf, cX0, method='Nelder-Mead', options=dict(xatol=plan['xtol'], fatol=plan['ftol'], adaptive=bool(plan.get('adaptive')),
+                                                                           disp=False, maxiter=dim * 200, maxfev=dim * 200, initial_simplex=csim0))
+        ccalls[0] = 0
+        comp = ms.NelderMeadSimplexSolver(dim); comp.SetInitialPoints(cx0)
+        comp.SetTermination(s._termination)          # the very same condition object
+        comp.SetObjective(cf)
+        comp_done = [False]
+        tags['companion'] = True
+        run.probe('c08.companion_runs')
+        def comp_step():
+            if comp_done[0]: return
+            with numpy.errstate(all='ignore'):
+                if comp.Step(**kw) or comp.generations > dim * 200 + 5: comp_done[0] = True
     lost = 0      # step-monitor records lost to a failed log write (the iteration itself was made)
     if plan.get('logfaults'):
         import mystic.monitors as mm
@@ -343,6 +374,7 @@ def run_nm(plan, run, violate, stats):
     k = 0
     while True:
         g_before = len(s._stepmon)
+        if comp is not None: comp_step()
         try:
             msg = s.Step(cost if first else None, **kw); first = False
         except env.SimFault:
@@ -373,6 +405,17 @@ def run_nm(plan, run, violate, stats):
                 violate('nm_diverges_from_reference@iter', 'after iteration %d mystic made %d evaluations, scipy %d'
                         % (g - 1, s.evaluations, per_iter[g - 2]), **tags); return
         if msg or k > 2000: break
+    if comp is not None:
+        for _ in range(dim * 200 + 10):
+            if comp_done[0]: break
+            comp_step()
+        if cref.status == 0 and (comp.generations != cref.nit or comp.evaluations != cref.nfev or not close(comp.bestSolution, cref.x)
+                                 or not close(float(comp.bestEnergy), float(cref.fun))):
+            violate('nm_diverges_from_reference@final', 'a second Nelder-Mead solver stepped in turn with this one under the same '
+                    'CandidateRelativeTolerance object ended at %r/%r after %d iterations, %d evaluations; scipy for its problem: %r/%r, %d, %d'
+                    % (canon(comp.bestSolution), float(comp.bestEnergy), comp.generations, comp.evaluations, canon(cref.x), float(cref.fun),
+                       cref.nit, cref.nfev), **tags)
+            return
     if ref.status == 1:
         mf = opts['maxfev']
         if not (mf <= s.evaluations <= mf + dim + 1 and ref.nit <= s.generations + lost <= ref.nit + 1 and s.evaluations == len(run.evals)):
